@@ -16,7 +16,7 @@ from . import c18
 ID = "C14"
 LEVEL = "model_checking"
 RULE = ("every drawing of the pool (every symbol kind of C13 in a one-loop or divider context, both placement directions, both "
-        "reversal flags for sources; plus two-mesh drawings) x every solution kind and display option (real: precision 1..5; "
+        "reversal flags for sources; plus two-mesh drawings; thorough: also every 2x2-lattice drawing of the C13 structure space) x every solution kind and display option (real: precision 1..5; "
         "complex at w=0 and single-frequency complex at the source frequency: precision {2,3,4} x Cartesian/polar x radians/degrees; "
         "time-domain steady state: sine reference x degrees x hertz) x every named element x {voltage, current, power} x both "
         "annotation directions, and every labelled node / ground for potentials; the text of every label produced by the real "
@@ -88,11 +88,29 @@ def shards(tier):
         out.append(("direct draw_*", ("D", di, tier)))
     for k in range(len(declarative_cases())):
         out.append(("declarative solution section", ("S", k)))
+    if tier == "thorough":
+        n = len(c13.edge_options("quick"))
+        for a in range(n):
+            for b in range(n):
+                out.append(("every 2x2 lattice drawing of C13 (real and polar-degree annotations)", ("A", a, b)))
     return out
 
 
 def run_shard(desc):
     res = new_result()
+    if desc[0] == "A":
+        opts = c13.edge_options("quick")
+        for c_ in range(len(opts)):
+            for d_ in range(len(opts)):
+                sel = [opts[desc[1]], opts[desc[2]], opts[c_], opts[d_]]
+                base = [c13.make_item(o, c13.EDGES2[k], k) for k, o in enumerate(sel) if o is not None]
+                if not any(it["op"] == "sym" for it in base):
+                    continue
+                touched = sorted({tuple(it[k]) for it in base if it["op"] == "sym" for k in ("p", "q")})   # the ground sits on a symbol's terminal
+                prog = base + [{"op": "ground", "p": list(touched[0])}]
+                for kind, o in (("real", {"precision": 3}), ("complex", {"precision": 4, "polar": True, "deg": True})):
+                    judge_direct(prog, kind, o, res)
+        return res
     if desc[0] == "D":
         prog = drawings()[desc[1]]
         for kind, opts in configs(desc[2]):
